@@ -122,7 +122,8 @@ Qed.
    loop function with the unfolding the translated loops have (li), over any statement method (gen_step) tied to the model's
    (step) on the streams of the classes that have it (P) *)
 Section InnerLoop.
-Context (li : list gobj -> GStream * GSink * list (pbval str) -> loopres unit (GStream * GSink * list (pbval str))).
+Context {D : Type}.  (* what the loop carries beside the stream and the yields: the sink, or the list the statements come from *)
+Context (li : list gobj -> GStream * D * list (pbval str) -> loopres unit (GStream * D * list (pbval str))).
 Context (gen_step : list gobj -> GStream -> outcome (option (pbval str)) * GStream * list gobj).
 Context (step : list term -> stream -> step_result).
 Context (P : stream -> Prop).
@@ -174,7 +175,7 @@ Proof.
 Qed.
 End InnerLoop.
 
-Definition finish_gen (graph_flush : bool) (g : GStream) (k : GSink) (ys : list (pbval str)) : outcome unit * GStream * GSink * list (pbval str) :=
+Definition finish_gen {D : Type} (graph_flush : bool) (g : GStream) (k : D) (ys : list (pbval str)) : outcome unit * GStream * D * list (pbval str) :=
   let '(r1, f1) := (if graph_flush then FrameFlow_frame_from_graph SN else FrameFlow_frame_from_dataset SN) (Stream_flow SN g) in
   let g1 := set_Stream_flow SN f1 g in
   match r1 with
@@ -190,7 +191,7 @@ Definition finish_gen (graph_flush : bool) (g : GStream) (k : GSink) (ys : list 
   end.
 
 (* end of input: frame_from_graph / frame_from_dataset, then to_stream_frame, each yielding its frame if there is one *)
-Lemma finish_tie (graph_flush : bool) (g : GStream) (m : stream) (k : GSink) (ys : list (pbval str)) : gRs g m ->
+Lemma finish_tie {D : Type} (graph_flush : bool) (g : GStream) (m : stream) (k : D) (ys : list (pbval str)) : gRs g m ->
   match finish_gen graph_flush g k ys, finish graph_flush m with
   | (r, g', k', ys'), (m', fin) => gRs g' m' /\ k' = k /\ ys' = ys ++ map fmsg (emitted fin) /\ r = Val tt /\ raised fin = None
   end.
@@ -520,7 +521,8 @@ Qed.
 
 (* the loop of graphs_stream_frames over the sinks of the runs is the model's feed_graphs_generic *)
 Section GraphLoop.
-Context (lg : list GSink -> GStream * GSink * list (pbval str) -> loopres unit (GStream * GSink * list (pbval str))).
+Context {D : Type}.
+Context (lg : list GSink -> GStream * D * list (pbval str) -> loopres unit (GStream * D * list (pbval str))).
 Context (H_nil : forall st, lg [] st = LContinue st).
 Context (H_cons : forall r xs gx k ys, run_ok r ->
   lg (sink_of_run r :: xs) (gx, k, ys) =
